@@ -18,3 +18,42 @@ for root, covers in [('c19_int_roundtrip', [1, 2, 3, 4, 5, 6]), ('c19_int_inject
 def jobs_for(prop, tier):
     out = [j for j in JOBS if j.prop == prop and (tier == 'thorough' or j.tier == 'quick')]
     return out
+
+# ---------------------------------------------------------------- probes (not part of any property)
+J('PROBE', 'probe_e2e', 'probe_e2e.cc', 'probe_e2e', units=['ALL'], unwind=3, timeout=3000, mem_gb=24, tv=0, object_bits=12, tier='probe')
+
+# ---------------------------------------------------------------- C18
+MM_UNITS = {'array_grid_style': 'memory_managers/array_grid.cc', 'orig_grid_style': 'memory_managers/orig_grid.cc',
+            'heap_style': 'memory_managers/heap_manager.cc', 'freelist_style': 'memory_managers/freelists.cc'}
+def mm_job(style, gran, k, s, pre, tier, timeout, arena=48, unwind=None):
+    name = 'c18_%s_g%d_k%d_s%d_p%d' % (style.replace('_style', ''), gran, k, s, pre)
+    J('C18', name, 'c18_mm.cc', 'c18_history', units=[MM_UNITS[style], 'memory.cc', 'memstats.cc', 'error.cc'],
+      defines={'STYLE': style, 'GRAN': gran, 'K': k, 'S': s, 'PRE': pre, 'MINSZ': 4 if style != 'freelist_style' else 1},
+      gxx_units=['io.cc', 'memory_managers/malloc_style.cc'], unit_defines={'MEDDLY_VERIF_ARENA': arena}, arena=({2: 'uint16_t', 4: 'uint32_t', 8: 'uint64_t'}[gran], arena), unwind=unwind or (k + pre + 3), timeout=timeout, tier=tier, covers=[2, 3] if k >= 3 else [2],
+      flags=['--no-array-field-sensitivity'] if False else [],
+      desc='%s, %d-byte slots, free history of %d nondet steps (request size in [min,%d] / recycle any live chunk)%s; initial arena %d slots (hook H1)' % (
+          style, gran, k, s, (' after a shaped prefix of %d requests + nondet recycles' % pre) if pre else '', arena))
+for st in MM_UNITS:
+    mm_job(st, 4, 3, 8, 0, 'quick', 1500)
+    mm_job(st, 4, 4, 8, 0, 'thorough', 5400)
+    mm_job(st, 2, 3, 8, 0, 'thorough', 3000)
+    mm_job(st, 8, 3, 8, 0, 'thorough', 3000)
+    mm_job(st, 4, 2, 6, 3, 'thorough', 5400)
+for g in (4, 8):
+    J('C18', 'c18_malloc_g%d' % g, 'c18_mm.cc', 'c18_malloc', units=['memory_managers/malloc_style.cc', 'memory.cc', 'memstats.cc', 'error.cc'],
+      defines={'GRAN': g, 'S': 8, 'MINSZ': 1, 'MALLOC_ONLY': 1}, gxx_units=['io.cc'], unwind=3, covers=[1], timeout=600,
+      desc='malloc_style bookkeeping, %d-byte slots, two live chunks of nondet size in [1,8], recycle/re-request; getChunkAddress (NULL base + handle) excluded: not representable in CBMC pointer model' % g)
+J('PROBE', 'probe_e2e2', 'probe_e2e2.cc', 'probe_e2e2', units=['ALL'], gxx_extra=['-lgmp'], unwind=1100, timeout=3000, mem_gb=24, tv=0, object_bits=12, tier='probe')
+
+# ---------------------------------------------------------------- C06
+for mode in (0, 1, 2):
+    J('C06', 'c06_counter_m%d' % mode, 'c06_arrays.cc', 'c06_counter', units=['arrays.cc', 'error.cc'], gxx_units=['io.cc'], defines={'MODE': mode}, unwind=8,
+      covers=[7, 8] + ([3] if mode < 2 else []) + ([4] if mode > 0 else []), timeout=900,
+      desc='counter_array in %d-bit mode (reached through the real 255->256 / 65535->65536 transitions), 3 cells each holding any count of that width with exact censuses, then one nondet operation from {increment, decrement, isZeroBeforeIncrement, isPositiveAfterDecrement, swap, expand(4|5), shrink(2|1)}' % (8 << mode))
+    J('C06', 'c06_counter_seq_m%d' % mode, 'c06_arrays.cc', 'c06_counter_seq', units=['arrays.cc', 'error.cc'], gxx_units=['io.cc'], defines={'MODE': mode}, unwind=8,
+      covers=[7, 8] + ([5] if mode > 0 else []), timeout=900,
+      desc='counter_array in %d-bit mode, symbolic contents, one counting operation followed by one resize' % (8 << mode))
+J('C06', 'c06_address', 'c06_arrays.cc', 'c06_address', units=['arrays.cc', 'error.cc'], gxx_units=['io.cc'], unwind=12, covers=[1, 2, 3, 4], timeout=900,
+  desc='address_array: 3..5 cells, 3 nondet operations from {set(any 64-bit value), swap, expand, shrink}')
+J('C06', 'c06_level', 'c06_arrays.cc', 'c06_level', units=['arrays.cc', 'error.cc'], gxx_units=['io.cc'], unwind=12, covers=[1, 2, 3, 4], timeout=900,
+  desc='level_array: any max_level in [1,2^31), 3 nondet operations from {set(any level in range), swap, expand}')
